@@ -181,7 +181,7 @@ def _kf_add_missing_regex_order(family, case, disc):
 
 
 FAMILIES = [
-    Family("pandas", evaluate, strategy=lambda: gen.parser_case(), n_quick=500, n_thorough=4000, shards_quick=4,
+    Family("pandas", evaluate, strategy=lambda: gen.parser_case(), n_quick=1000, n_thorough=4000, shards_quick=4,
            shards_thorough=16,
            required_labels=["op=coerce", "op=default", "op=add_missing", "op=filter", "op=drop", "kind=series",
                             "result-differs-from-input", "outcome=ok"]),
@@ -192,7 +192,7 @@ from . import plx  # noqa: E402
 FAMILIES.append(
     Family("polars", plx.eval_c03,
            strategy=lambda: plx.strat_case(parsers="many", containers=("df", "df", "lf_full"), drop_rate=2, regex_rate=2),
-           n_quick=350, n_thorough=3000, shards_quick=3, shards_thorough=12,
+           n_quick=700, n_thorough=3000, shards_quick=3, shards_thorough=12,
            required_labels=["container=lf_full", "outcome=ok", "result-differs-from-input", "op=coerce", "op=default",
                             "op=add_missing"]))
 
